@@ -48,6 +48,12 @@ func (t *tr) loopItems(m mark, outer map[string]*binding) []*litem {
 	var out []*litem
 	seen := map[interface{}]bool{}
 	for _, e := range t.log[m.nlog:] {
+		if e.mv != nil && t.cellExistedAt(e.mv, m) {
+			// (the dry run starts every iteration from the loop-head state, where it is not yet moved)
+			t.fail("the loop stores the pointer %s, which exists outside the loop, into a slice: all iterations would share it", e.mv.hint)
+		}
+	}
+	for _, e := range t.log[m.nlog:] {
 		switch {
 		case e.o != nil && e.o.id <= m.nobj && !seen[e.o]:
 			seen[e.o] = true
@@ -72,7 +78,7 @@ func (t *tr) loopItems(m mark, outer map[string]*binding) []*litem {
 				continue // declared inside the body
 			}
 			nv := t.lookup(e.v)
-			if nv == ob.v || (nv.c == ob.v.c && nv.o == ob.v.o && nv.e == ob.v.e && nv.el == ob.v.el && nv.isNil == ob.v.isNil) {
+			if sameVal(nv, ob.v) {
 				continue // x = x.Op(..): the same pointer
 			}
 			out = append(out, t.varItem(e.v, ob.v, nv, m))
